@@ -236,7 +236,7 @@ GRAMMAR_TB = [
     "the theorem statements in lean/ScrutModel/Props being a faithful reading of the property",
     CORR,
     "hand-written model lean/ScrutModel/Model/Grammar.lean of RuleRegistry::to_expectation_regex (the regex written out as the string function it denotes under leftmost-first semantics), ExpectationMaker::extract/parse (capture-count logic incl. the index panic), RuleRegistry::make dispatch and Rule::to_expression_string; tied to the code by correspondence only",
-    "parameters of the model (theorems hold for all values): the regex crate's \\s class (only `\\s` matches the blank is assumed; the model's Unicode White_Space table is compared with the crate on U+0000-U+30FF), make+unmake of the escaped/glob/regex rules (subject of C04), the escaper (subject of C11), String::from_utf8_lossy and char::is_whitespace (std; the theorems assume only that every `\\s` character is white space for std, both are compared per code point); rule matching is a function of (kind, unmake expression) in the model, sampled by the match-equivalence oracle",
+    "parameters of the model (theorems hold for all values): the regex crate's \\s class (only `\\s` matches the blank is assumed; the model's Unicode White_Space table is compared with the crate on U+0000-U+30FF), make+unmake of the escaped/glob/regex rules (subject of C04), the escaper (subject of C11), char::is_whitespace (std; the theorems assume only that every `\\s` character is white space for std, both are compared per code point); rule matching is a function of (kind, unmake expression) in the model, sampled by the match-equivalence oracle",
     "the regex crate implementing leftmost-first semantics",
     RUSTC,
 ]
@@ -254,9 +254,9 @@ PROPS["C08"] = {"rule": GRAMMAR_RULE, "trusted_base": GRAMMAR_TB, "assumptions":
 
 MANIFEST_TEXT = {
     "C08": {
-        "text": "Machine-checked (Lean 4, all lines without line feed, any \\s class, any rule constructors, any escaper): parse never panics and never reports an unknown kind; it fails only with the error of the escaped/glob/regex constructor on the expression in front of a final modifier (C08_total); the recognised modifier is exactly the documented final ` (<kind><quantifier>)` with everything before the white-space character verbatim (C08_grammar: Modifier <-> modifierOf, C08_extract, C08_modifier_parse incl. ?/*/+ flags), the decomposition is unique (C08_modifier_unique, C08_suffix_unique) and every other line incl. `foo ()` is equal for the whole line (C08_otherwise_equal). Round trip (after fix 2c946ec): for every expectation of every kind parse(to_expression_string e) gives e back with the same quantifier (equal with unprintable content as escaped) exactly when the rule constructor reproduces the expression from the rendered text (C08_roundtrip, C08_roundtrip_iff, C08_parse_render, C08_roundtrip_matches); no guard on the text's shape is left because ends_like_modifier over-approximates the grammar (C08_ends_like_modifier_sound; regression example C08_roundtrip_equal_modifier_shaped). PARTIAL in that the constructor contract is a hypothesis (subject of C04/C11) and is false in one known situation (C08_roundtrip_fails_on_witness, open finding). Tie to code: exhaustive token-alphabet lines, structured nested suffixes, random lines through the real parse/render/parse under both escapers; backwards-scanner oracle.",
+        "text": "Machine-checked (Lean 4, all lines without line feed, any \\s class, any rule constructors, any escaper): parse never panics and never reports an unknown kind; it fails only with the error of the escaped/glob/regex constructor on the expression in front of a final modifier (C08_total); the recognised modifier is exactly the documented final ` (<kind><quantifier>)` with everything before the white-space character verbatim (C08_grammar: Modifier <-> modifierOf, C08_extract, C08_modifier_parse incl. ?/*/+ flags), the decomposition is unique (C08_modifier_unique, C08_suffix_unique) and every other line incl. `foo ()` is equal for the whole line (C08_otherwise_equal). Round trip: for every expectation of every kind parse(to_expression_string e) gives e back with the same quantifier (equal with unprintable content as escaped) exactly when the rule constructor reproduces the expression from the rendered text (C08_roundtrip, C08_roundtrip_iff, C08_parse_render, C08_roundtrip_matches); no guard on the text's shape is left because ends_like_modifier over-approximates the grammar (C08_ends_like_modifier_sound; regression example C08_roundtrip_equal_modifier_shaped). PARTIAL in that the constructor contract is a hypothesis (subject of C04/C11) and is false in two known situations, both open findings: regex/no-eol expressions with unprintable characters, displayed through the escaper (decidable guard has_unprintable = false: C08_roundtrip_noEol_guarded, C08_roundtrip_noEol_iff, C08_roundtrip_fails_on_escaped_pattern_witness), and the ` (no-eol)` strip of the escaped constructor (C08_roundtrip_fails_on_witness). Tie to code: exhaustive token-alphabet lines, structured nested suffixes, random lines through the real parse/render/parse under both escapers; backwards-scanner oracle.",
         "design_ref": "DESIGN.md §6 C08",
-        "note": "Open finding C08:escaped-no-eol-strip-roundtrip: bytes ending in ` (no-eol)` do not survive being written as an escaped expectation (EscapedRule::make strips the suffix, Cram compatibility): `a<TAB> (no-eol) (equal)`, `foo (no-eol) (no-eol) (esc)`. Three round-trip defects repaired by fix: 2c946ec (equal text ending like a modifier; glob/regex/no-eol written through the escaper; escaped with a literal backslash). Lines containing a line feed panic in parse (out of scope). `\\s` is Unicode white space (doc says a space): NBSP, TAB, U+3000 ... before the parenthesis also make a modifier. Defect repaired earlier by fix: d06722c (`foo ()`).",
+        "note": "Open findings: C08:escaped-pattern-roundtrip (regex / no-eol expressions with unprintable characters -- under --escaper ascii any non-ASCII character -- are written through the escaper for display and read back literally: `a<TAB> (no-eol)` -> `a\\t (no-eol)`; no escaped syntax exists for these kinds) and C08:escaped-no-eol-strip-roundtrip (bytes ending in ` (no-eol)` do not survive being written as an escaped expectation, EscapedRule::make strips the suffix: `a<TAB> (no-eol) (equal)`, `foo (no-eol) (no-eol) (esc)`). Round-trip defects repaired by fix: 2c946ec (equal text ending like a modifier; glob written through the escaper; escaped with a literal backslash). Lines containing a line feed panic in parse (out of scope). `\\s` is Unicode white space (doc says a space): NBSP, TAB, U+3000 ... before the parenthesis also make a modifier. Defect repaired earlier by fix: d06722c (`foo ()`).",
         "technique": "Lean 4 theorems on a string-function model of the grammar regex + exhaustive differential correspondence + independent backwards-scanner oracle",
     },
     "C04": {
@@ -364,7 +364,7 @@ MANIFEST_TEXT = {
 }
 
 # properties whose machinery is merged but being brought up to date with fix commits: not claimed yet
-PENDING = {"C08"}
+PENDING = set()
 
 WIP = "not yet claimed: model, theorems and correspondence for this property are still being built (see DESIGN.md §11); nothing is asserted about it"
 NOT_APPLICABLE = [{"property_id": "C%02d" % i, "reason": WIP} for i in range(1, 21) if "C%02d" % i not in PROPS or "C%02d" % i in PENDING]
